@@ -108,12 +108,20 @@ def forbidden_tokens(prop_id):
     return hits
 
 
+GEN_TR = os.path.join(LEAN_DIR, 'EdzedModel', 'Gen', 'Translated.lean')
+
+
 def run_extractor():
+    """both generated parts of the tie: constants/tables (extract.py) and the translated functions (py2lean.py)"""
     env = dict(os.environ, EDZED_SRC=EDZED_SRC)
-    p = subprocess.run(
-        [PY, os.path.join(VERIF, 'tools', 'extract.py'), GEN],
-        capture_output=True, text=True, env=env, timeout=120)
-    return p.returncode == 0, (p.stdout + p.stderr)[-4000:]
+    ok, log = True, ''
+    for tool, out in (('extract.py', GEN), ('py2lean.py', GEN_TR)):
+        p = subprocess.run(
+            [PY, os.path.join(VERIF, 'tools', tool), out],
+            capture_output=True, text=True, env=env, timeout=120)
+        ok = ok and p.returncode == 0
+        log += (p.stdout + p.stderr)[-4000:]
+    return ok, log
 
 
 def lake(*args, timeout=1500):
@@ -131,7 +139,7 @@ def prepare(prop_id, clean=False):
         ok, log = run_extractor()
         if not ok:
             res['extractor_ok'] = False
-            res['broken'].append('translator tools/extract.py')
+            res['broken'].append('translator tools/extract.py / tools/py2lean.py')
             res['log'] += log
         if clean:
             lake('clean')
